@@ -16,7 +16,28 @@
 struct set_node *vp_log_alloc(size_t size);
 #undef set_node_alloc
 #define set_node_alloc(SIZE) vp_log_alloc(SIZE)
+#ifndef REPLAY
+/* allocator model for the working copy log_parse_type_sevset() makes of the entry name: a
+ * block of FIXED size (48 >= any text the harness builds) filled up to the terminator.  The
+ * real xstrdup() sizes the block by strlen(), which for a text with symbolic characters is a
+ * symbolic size and does not finish (A2.11); the native replay uses the real xstrdup(). */
+static char *vp_xstrdup48(const char *s)
+{
+    char *p = malloc(48);
+    unsigned i;
+    __CPROVER_assume(p != NULL);
+    for (i = 0; i < 47; i++) {
+        p[i] = s[i];
+        if (s[i] == '\0')
+            break;
+    }
+    p[47] = '\0';
+    return p;
+}
+#define xstrdup vp_xstrdup48
+#endif
 #include "src/log.c"
+#undef xstrdup
 #undef conf
 #include "vp.h"
 
@@ -39,43 +60,60 @@ static const int v7[2] = { LOG_COMMAND, LOG_WARNING };
 void harness(void)
 {
     static const char expr[] = VP_EXPR;
+    const unsigned elen = sizeof(expr) - 1;
     char text[48];
-    unsigned n = 0, i, want = 0, ok = 1, pos = 0;
-    int op = 0;             /* 0 '=', 1 '>=', 2 '>', 3 '<=', 4 '<' : operator of the current item */
+    unsigned n = 0, i, want = 0, ok = 1;
+    int val[sizeof(expr)];          /* severity value of the name standing at layout position i (-1: not a name) */
     struct log_type *type = NULL;
     struct severity_bitset set;
     int res;
 
     log_core = log_type_register("core", NULL);
     text[n++] = 'c'; text[n++] = 'o'; text[n++] = 'r'; text[n++] = 'e'; text[n++] = '.';
-    for (i = 0; i < sizeof(expr) - 1; i++) {
+    /* the text: placeholders expanded to symbolic names */
+    for (i = 0; i < elen; i++) {
         char c = expr[i];
+        val[i] = -2;
         if (c == 'N' || c == 'M') {
             unsigned k = c == 'N' ? vp_range(0, 3) : vp_range(0, 1), len = c == 'N' ? 5 : 7, q;
-            int sv = c == 'N' ? v5[k] : v7[k], s;
+            val[i] = c == 'N' ? v5[k] : v7[k];
             for (q = 0; q < len; q++)
                 text[n++] = c == 'N' ? n5[k][q] : n7[k][q];
-            if (sv < 0)
-                ok = 0;
-            else
-                for (s = 0; s < LOG_NUM_SEVERITIES; s++)
-                    if ((op == 0 && s == sv) || (op == 1 && s >= sv) || (op == 2 && s > sv) || (op == 3 && s <= sv) || (op == 4 && s < sv))
-                        want |= 1u << s;
-            op = 0;
-            pos++;
-        } else {
+        } else
             text[n++] = c;
-            if (c == '>') op = 2;
-            else if (c == '<') op = 4;
-            else if (c == '=' && op == 2) op = 1;
-            else if (c == '=' && op == 4) op = 3;
-            else if (c == '=') op = 0;
-            else if (c == ',') op = 0;
-            else if (c == '*') want = (1u << LOG_NUM_SEVERITIES) - 1;
-            else ok = 0;        /* any other character is outside the syntax */
-        }
     }
     text[n] = '\0';
+
+    /* the documented meaning, evaluated on the (concrete) layout and the chosen names:
+     *   expr := "*" | item { "," item } [ "," ]        item := [ "=" | "<" | "<=" | ">" | ">=" ] name */
+    if (elen == 1 && expr[0] == '*')
+        want = (1u << LOG_NUM_SEVERITIES) - 1;
+    else {
+        unsigned pos = 0;
+        while (pos < elen) {
+            unsigned end = pos, op = 0, p = pos;
+            int sv, s;
+            while (end < elen && expr[end] != ',')
+                end++;
+            /* item = expr[pos .. end) */
+            if (p < end && expr[p] == '>') { p++; op = 2; if (p < end && expr[p] == '=') { p++; op = 1; } }
+            else if (p < end && expr[p] == '<') { p++; op = 4; if (p < end && expr[p] == '=') { p++; op = 3; } }
+            else if (p < end && expr[p] == '=') { p++; op = 0; }
+            if (end - p != 1 || (expr[p] != 'N' && expr[p] != 'M')) {
+                ok = 0;             /* empty item, or something that is not a severity name */
+                break;
+            }
+            sv = val[p];
+            if (sv < 0) {
+                ok = 0;             /* "bogus" */
+                break;
+            }
+            for (s = 0; s < LOG_NUM_SEVERITIES; s++)
+                if ((op == 0 && s == sv) || (op == 1 && s >= sv) || (op == 2 && s > sv) || (op == 3 && s <= sv) || (op == 4 && s < sv))
+                    want |= 1u << s;
+            pos = end + 1;          /* past the comma; a trailing comma ends the expression */
+        }
+    }
 
     res = log_parse_type_sevset(&type, &set, text);
 
